@@ -21,6 +21,10 @@ Oracles
              within (n+1) eps sum|a||b| of numpy; entries outside the
              documented output region untouched.
   transpiled every output bit-identical (NaN == NaN) to the Python run.
+  transforms py_transform = P^T A P, py_transform_diag = P^T diag(a) P,
+             py_transform_diag_inv = P diag(a) P^T for a general P, within
+             32 eps |P|^T|A||P|; py_det against the exact rational value of
+             the documented symmetric-matrix formula within 16 eps sum|terms|.
   eigen      V^T V = I to 1e-12, max|A V - V diag(d)| <= 1e-12 ||A||_F,
              sorted d equals numpy.linalg.eigvalsh to 1e-12 ||A||_F,
              transform_diag_inv(d, V) = V diag(d) V^T, input not modified.
@@ -43,14 +47,27 @@ RULE = ('system cases = (n in 1..6, nb in 1..3, nmax in n..6, one of 11 '
         'later elimination stage (row-swapped L U) / SPD / rows scaled by '
         '1e-6..1e6 / integer rank n-1 with consistent or inconsistent '
         'right-hand sides / rank n-1 plus a 1e-6..1e-14 perturbation / '
-        'fixed textbook matrices; overall scale 1e-3..1e3), plus operands for '
+        'fixed textbook matrices / structured: identity, scalar, diagonal, '
+        'upper and lower triangular, permutation, permutation x diagonal, '
+        'anti-diagonal, hollow (zero diagonal), tridiagonal, row-permuted '
+        'triangular, optionally with identity columns as right-hand sides / '
+        'columns scaled by 1e-4..1e4 / rank deficient: zero matrix, zero row, '
+        'zero column, repeated rows or columns, rank 1, two dependent rows / '
+        'pivot choice: at some stage a zero or tiny diagonal with several '
+        'larger rows below, the largest not being the last of them; '
+        'overall scale 1e-12..1e12), plus operands for '
         'mat_mult, mat_vec_mult, dot. Non-trivial system = plain elimination '
         'without row exchange (run by the oracle) meets a pivot < 1e-6 * '
         'max|column below it| while the matrix is non-singular in the sense '
         'of the oracle (sigma_min/sigma_max > 1e-9). Eigen cases = symmetric '
         '3x3: random, float, diagonal, rank 1/2, exact and rotated double '
         'eigenvalue, triple, nearly diagonal, graded (entries 1 .. 1e-280 in '
-        'one matrix), zero; scaled by 1e-8..1e8 (and '
+        'one matrix), zero, plane (2D tensor embedded along each pair of '
+        'axes, third diagonal entry zero / equal to an entry or eigenvalue of '
+        'the block / arbitrary), zero diagonal (pure shear, some off-diagonal '
+        'entries zero); every eigen case also carries a general 3x3 matrix P '
+        'for py_transform, py_transform_diag, py_transform_diag_inv and '
+        'py_det; scaled by 1e-8..1e8 (and '
         '1e-150..1e150 in the family "extreme"). Non-trivial eigen case = two '
         'eigenvalues closer than 1e-6 ||A|| (gap-free pair) for a non-zero '
         'matrix. Distinct by case hash.')
@@ -70,6 +87,10 @@ ASSUMPTIONS = [
     'entry that becomes subnormal after the routine divides by sum|A| makes '
     'the EISPACK shift overflow; treated as outside the domain), and max|A| '
     '>= 1e-280 or A = 0',
+    'py_det is compared for max|A| in [1e-90, 1e90] (or A = 0) only: a '
+    'product of three entries must stay in the normal range',
+    'py_get_eigenvalues / py_get_eigenvector (closed-form helpers no shipped '
+    'equation uses, no stated accuracy) are not asserted',
     'py_get_eigenvalvec is checked as its own component; the solid-mechanics '
     'equations use eigen_decomposition (py_eigen_decompose_eispack) and '
     'transform_diag_inv only',
@@ -84,7 +105,18 @@ ESSENTIAL_LABELS = {'all': [
     'eig:random', 'eig:float', 'eig:diagonal', 'eig:rank1', 'eig:rank2',
     'eig:double_exact', 'eig:double_rot', 'eig:triple', 'eig:nearly_diag',
     'eig:zero', 'eig:extreme', 'eig:graded', 'eig_tiny_entry',
-    'eig_gap_free', 'eig_scaled_small', 'eig_scaled_large']}
+    'eig_gap_free', 'eig_scaled_small', 'eig_scaled_large',
+    'fam:structured', 'fam:col_scaled', 'fam:rank_def', 'fam:pivot_choice',
+    'scale_big',
+    'scale_small', 'rhs_identity_columns', 'inverse',
+    'struct:identity', 'struct:scalar', 'struct:diagonal', 'struct:upper',
+    'struct:lower', 'struct:perm', 'struct:perm_diag', 'struct:antidiag',
+    'struct:hollow', 'struct:tridiag', 'struct:perm_upper',
+    'struct:perm_lower',
+    'rankdef:zero', 'rankdef:zero_row', 'rankdef:zero_col',
+    'rankdef:dup_rows', 'rankdef:dup_cols', 'rankdef:rank1',
+    'rankdef:two_dependent_rows',
+    'eig:plane', 'eig:zero_diag', 'transforms_checked', 'det_checked']}
 
 VERIF = os.path.dirname(os.path.dirname(os.path.abspath(__file__)))
 NMAX, NBMAX = 6, 3
@@ -138,7 +170,8 @@ def system_strategy(draw):
     fam = draw(st.sampled_from([
         'random', 'float', 'dd', 'perm_dd', 'perm_dd', 'lead_pivot',
         'lead_pivot', 'stage_pivot', 'stage_pivot', 'spd', 'row_scaled',
-        'singular', 'near_singular', 'fixed']))
+        'singular', 'near_singular', 'fixed', 'structured', 'structured',
+        'col_scaled', 'rank_def', 'pivot_choice', 'pivot_choice']))
     n = draw(st.integers(1, NMAX))
     nb = draw(st.integers(1, NBMAX))
     info = {}
@@ -207,6 +240,131 @@ def system_strategy(draw):
             bv = _ints(draw, n * nb)
             b = [[bv[nb * i + j] * 10.0 ** e[i] for j in range(nb)]
                  for i in range(n)]
+    elif fam == 'pivot_choice':
+        # At elimination stage k the diagonal entry is zero or tiny and
+        # several rows below it are larger; the largest one is NOT the last
+        # of them (a row further down holds a small entry eps with
+        # |diagonal| < eps << largest).  The block is a row-permuted strictly
+        # diagonally dominant matrix with two sub-dominant entries made
+        # smaller, hence well conditioned whatever the choice.
+        n = max(n, 3)
+        k = draw(st.integers(0, n - 3))
+        mb = n - k
+        D = _dd(draw, mb)
+        i0 = draw(st.integers(1, mb - 2))       # where the dominant row goes
+        rest = list(draw(st.permutations(list(range(1, mb)))))
+        order = rest[:i0] + [0] + rest[i0:]
+        Bk = [list(D[r]) for r in order]
+        t0 = draw(st.sampled_from([0.0, 0.0, 1e-14, -1e-15, 1e-9]))
+        j0 = draw(st.integers(i0 + 1, mb - 1))
+        ep = draw(st.sampled_from([1e-13, -1e-13, 1e-10, 1e-8, 1e-6, 1e-3]))
+        if abs(ep) <= abs(t0):
+            ep = 1e-3
+        Bk[0][0] = t0
+        Bk[j0][0] = ep
+        uv = _ints(draw, n * n, -4, 4)
+        ud = draw(st.lists(st.sampled_from([-2.0, -1.0, 0.5, 1.0, 2.0]),
+                           min_size=n, max_size=n))
+        A = [[0.0] * n for _ in range(n)]
+        for i in range(k):
+            for j in range(i, n):
+                A[i][j] = ud[i] if i == j else uv[n * i + j] / 4.0
+        for i in range(mb):
+            for j in range(mb):
+                A[k + i][k + j] = Bk[i][j]
+        info.update(stage=k, diag=t0, last_larger=ep, largest_at=i0,
+                    small_at=j0)
+    elif fam == 'structured':
+        # identity / diagonal / triangular / permutation-like matrices: many
+        # exact zeros, zeros on the diagonal, every entry exactly representable
+        kind = draw(st.sampled_from([
+            'identity', 'scalar', 'diagonal', 'upper', 'lower', 'perm',
+            'perm_diag', 'antidiag', 'hollow', 'tridiag', 'perm_upper',
+            'perm_lower']))
+        info['kind'] = kind
+        nz = [-4.0, -2.0, -1.0, -0.5, 0.5, 1.0, 2.0, 3.0, 0.25]
+        dg = draw(st.lists(st.sampled_from(nz), min_size=n, max_size=n))
+        ov = _ints(draw, n * n, -4, 4)
+        p = _perm(draw, n)
+        Z = [[0.0] * n for _ in range(n)]
+        if kind == 'identity':
+            A = [[1.0 if i == j else 0.0 for j in range(n)] for i in range(n)]
+        elif kind == 'scalar':
+            A = [[dg[0] if i == j else 0.0 for j in range(n)]
+                 for i in range(n)]
+        elif kind == 'diagonal':
+            A = [[dg[i] if i == j else 0.0 for j in range(n)]
+                 for i in range(n)]
+        elif kind in ('upper', 'perm_upper'):
+            A = [[(dg[i] if i == j else (ov[n * i + j] / 4.0 if j > i else
+                                         0.0)) for j in range(n)]
+                 for i in range(n)]
+        elif kind in ('lower', 'perm_lower'):
+            A = [[(dg[i] if i == j else (ov[n * i + j] / 4.0 if j < i else
+                                         0.0)) for j in range(n)]
+                 for i in range(n)]
+        elif kind in ('perm', 'perm_diag'):
+            A = [list(r) for r in Z]
+            for i in range(n):
+                A[i][p[i]] = 1.0 if kind == 'perm' else dg[i]
+        elif kind == 'antidiag':
+            A = [list(r) for r in Z]
+            for i in range(n):
+                A[i][n - 1 - i] = dg[i]
+        elif kind == 'hollow':
+            # zero diagonal, non-zero elsewhere (J - I is non-singular, n>=2)
+            n = max(n, 2)
+            sg = draw(st.sampled_from([1.0, -1.0, 0.5]))
+            A = [[0.0 if i == j else sg for j in range(n)] for i in range(n)]
+        else:   # tridiag
+            dv = draw(st.sampled_from([2.0, 0.5, 0.0, -2.0, 1.0]))
+            of = draw(st.sampled_from([-1.0, 1.0, 0.5]))
+            A = [[dv if i == j else (of if abs(i - j) == 1 else 0.0)
+                  for j in range(n)] for i in range(n)]
+        if kind in ('perm_upper', 'perm_lower'):
+            A = [A[p[i]] for i in range(len(A))]
+        if draw(st.booleans()):
+            # right-hand sides = leading columns of the identity (inverse)
+            b = [[1.0 if i == j else 0.0 for j in range(nb)]
+                 for i in range(n)]
+            info['rhs'] = 'identity_columns'
+    elif fam == 'col_scaled':
+        D = _dd(draw, n)
+        p = _perm(draw, n)
+        e = draw(st.lists(st.integers(-4, 4), min_size=n, max_size=n))
+        A = [[D[p[i]][j] * 10.0 ** e[j] for j in range(n)]
+             for i in range(n)]
+        info['col_exp'] = e
+    elif fam == 'rank_def':
+        # rank <= n-1 in other ways than one dependent row: zero matrix,
+        # zero row / column, repeated rows / columns, rank 1, rank n-2
+        kind = draw(st.sampled_from(['zero', 'zero_row', 'zero_col',
+                                     'dup_rows', 'dup_cols', 'rank1',
+                                     'two_dependent_rows']))
+        info['kind'] = kind
+        v = _ints(draw, n * n, -4, 4)
+        A = [[float(v[n * i + j]) / 2.0 for j in range(n)] for i in range(n)]
+        r0 = draw(st.integers(0, n - 1))
+        r1 = draw(st.integers(0, n - 1))
+        if kind == 'zero':
+            A = [[0.0] * n for _ in range(n)]
+        elif kind == 'zero_row':
+            A[r0] = [0.0] * n
+        elif kind == 'zero_col':
+            for i in range(n):
+                A[i][r0] = 0.0
+        elif kind == 'dup_rows':
+            A[r0] = list(A[r1])
+        elif kind == 'dup_cols':
+            for i in range(n):
+                A[i][r0] = A[i][r1]
+        elif kind == 'rank1':
+            u = _ints(draw, n, -3, 3)
+            w = _ints(draw, n, -3, 3)
+            A = [[float(u[i] * w[j]) for j in range(n)] for i in range(n)]
+        else:
+            A[r0] = [2.0 * x for x in A[(r0 + 1) % n]]
+            A[r1] = [-x for x in A[(r1 + 1) % n]]
     else:   # singular / near_singular: integer matrix of rank <= n-1
         v = _ints(draw, n * n, -4, 4)
         A = [[float(v[n * i + j]) for j in range(n)] for i in range(n)]
@@ -230,12 +388,17 @@ def system_strategy(draw):
             A = [[A[i][j] + ep * pv[n * i + j] for j in range(n)]
                  for i in range(n)]
             info['eps'] = ep
+    if b is None and n <= NBMAX and draw(st.integers(0, 4)) == 0:
+        # matrix inversion as crksph.py / magma2.py do it: nb = n, [A | I]
+        nb = n
+        b = [[1.0 if i == j else 0.0 for j in range(nb)] for i in range(n)]
+        info['rhs'] = 'identity_columns'
     if b is None:
         bv = _ints(draw, n * nb)
         b = [[float(bv[nb * i + j]) for j in range(nb)] for i in range(n)]
     if fam not in ('fixed', 'singular'):
         sc = draw(st.sampled_from([1.0, 1.0, 1.0, 10.0, 0.1, 1e3, 1e-3, 0.5,
-                                   3.0]))
+                                   3.0, 1e6, 1e9, 1e12, 1e-6, 1e-9, 1e-12]))
         if sc != 1.0:
             A = [[x * sc for x in r] for r in A]
             info['scale'] = sc
@@ -261,11 +424,12 @@ def eigen_strategy(draw):
     fam = draw(st.sampled_from([
         'random', 'random', 'float', 'diagonal', 'rank1', 'rank2',
         'double_exact', 'double_rot', 'triple', 'nearly_diag', 'zero',
-        'graded', 'extreme']))
+        'graded', 'extreme', 'plane', 'plane', 'zero_diag']))
     base = fam
     if fam == 'extreme':
         base = draw(st.sampled_from(['random', 'double_exact', 'rank1',
-                                     'nearly_diag', 'diagonal']))
+                                     'nearly_diag', 'diagonal', 'plane',
+                                     'zero_diag']))
 
     def sym(u):   # u: 6 numbers -> symmetric rows
         return [[u[0], u[3], u[4]], [u[3], u[1], u[5]], [u[4], u[5], u[2]]]
@@ -322,6 +486,35 @@ def eigen_strategy(draw):
                            min_size=6, max_size=6))
         A = sym([u[i] * 10.0 ** ex[i] for i in range(6)])
         info['exps'] = ex
+    elif base == 'plane':
+        # a 2D tensor embedded in 3x3: one axis decoupled from the other two
+        # (plane strain / plane stress states of the solid-mechanics
+        # equations); the third diagonal entry is zero, equal to a diagonal
+        # entry or an eigenvalue of the block, or arbitrary
+        axes = draw(st.sampled_from([(0, 1, 2), (0, 2, 1), (1, 2, 0)]))
+        a, bq, c = [x / 4.0 for x in _ints(draw, 3, -8, 8)]
+        if draw(st.integers(0, 3)) == 0:
+            c = a               # equal diagonal: eigenvalues a +- b
+        third = draw(st.sampled_from(['zero', 'zero', 'a', 'a+b', 'a-b',
+                                      'any']))
+        t = {'zero': 0.0, 'a': a, 'a+b': a + bq, 'a-b': a - bq,
+             'any': draw(st.integers(-8, 8)) / 4.0}[third]
+        A = [[0.0] * 3 for _ in range(3)]
+        i, j, k = axes
+        A[i][i], A[j][j], A[i][j], A[j][i], A[k][k] = a, c, bq, bq, t
+        info['axes'] = list(axes)
+        info['third'] = third
+    elif base == 'zero_diag':
+        # exact zeros on the whole diagonal (pure shear); some off-diagonal
+        # entries may vanish too
+        o = [x / 4.0 for x in _ints(draw, 3, -8, 8)]
+        mask = draw(st.sampled_from([(1, 1, 1), (1, 1, 1), (1, 0, 0),
+                                     (0, 1, 0), (0, 0, 1), (1, 1, 0),
+                                     (1, 0, 1), (0, 1, 1)]))
+        if draw(st.integers(0, 3)) == 0:
+            o = [o[0], o[0], o[0]]      # J - I type: a double eigenvalue
+        o = [x * m for x, m in zip(o, mask)]
+        A = sym([0.0, 0.0, 0.0] + o)
     elif base == 'nearly_diag':
         d = [float(x) for x in _ints(draw, 3, -4, 4)]
         o = _ints(draw, 3, -4, 4)
@@ -345,7 +538,9 @@ def eigen_strategy(draw):
     amax = max(abs(x) for r in A for x in r)
     A = [[(x if abs(x) >= EIG_MIN_RATIO * amax else 0.0) for x in r]
          for r in A]
-    return dict(op='eig', family=fam, base=base, A=A, info=info)
+    # a general (not orthogonal, not symmetric) matrix for the transforms
+    P = [x / 4.0 for x in _ints(draw, 9, -8, 8)]
+    return dict(op='eig', family=fam, base=base, A=A, info=info, P=P)
 
 
 # ---------------------------------------------------------------- helpers
@@ -519,6 +714,19 @@ def check_solve(case, want_compiled=True):
     labels.append('nb=%d' % nb)
     if nmax > n:
         labels.append('nmax_gt_n')
+    info = case.get('info', {})
+    if case['family'] == 'structured':
+        labels.append('struct:' + info.get('kind', '?'))
+    if case['family'] == 'rank_def':
+        labels.append('rankdef:' + info.get('kind', '?'))
+    if info.get('rhs') == 'identity_columns':
+        labels.append('rhs_identity_columns')
+        if nb == n:
+            labels.append('inverse')
+    if info.get('scale', 1.0) >= 1e6:
+        labels.append('scale_big')
+    if info.get('scale', 1.0) <= 1e-6:
+        labels.append('scale_small')
     An = np.array(A, dtype=float).reshape(n, n)
     sv = np.linalg.svd(An, compute_uv=False)
     smax, smin = float(sv[0]), float(sv[-1])
@@ -810,7 +1018,65 @@ def check_eig(case):
             except Exception as ex:
                 fails.append(Failure('transform_diag_inv', 'exception',
                                      repr(ex), {}))
+    if case.get('P') is not None:
+        fails.extend(check_transforms(linalg3, A0, amax, case['P'], labels))
     return fails, labels, bool(gapfree)
+
+
+def check_transforms(linalg3, A, amax, Pflat, labels):
+    """py_det, py_transform, py_transform_diag, py_transform_diag_inv against
+    the formulas in their docstrings (P.T A P, P.T diag(a) P, P diag(a) P.T,
+    determinant of a symmetric matrix) for a general matrix P."""
+    import numpy as np
+    fails = []
+    P = np.ascontiguousarray(np.array(Pflat, dtype=float).reshape(3, 3))
+    A = np.ascontiguousarray(A.copy())
+    a = np.ascontiguousarray(np.diag(A).copy())
+    aP, aA = np.abs(P), np.abs(A)
+    tiny = 1e-300
+    labels.append('transforms_checked')
+    with np.errstate(all='ignore'):
+        todo = [
+            ('transform', lambda: linalg3.py_transform(A, P),
+             P.T @ A @ P, aP.T @ aA @ aP),
+            ('transform_diag', lambda: linalg3.py_transform_diag(a, P),
+             P.T @ np.diag(a) @ P, aP.T @ np.diag(np.abs(a)) @ aP),
+            ('transform_diag_inv',
+             lambda: linalg3.py_transform_diag_inv(a, P),
+             P @ np.diag(a) @ P.T, aP @ np.diag(np.abs(a)) @ aP.T),
+        ]
+        for comp, fn, exp, mag in todo:
+            try:
+                got = np.array(fn(), dtype=float)
+            except Exception as ex:
+                fails.append(Failure(comp, 'exception', repr(ex), {}))
+                continue
+            if not np.all(np.abs(got - exp) <= 32 * EPS * mag + tiny):
+                fails.append(Failure(
+                    comp, 'wrong_value', 'A=%r (diag %r) P=%r: got %r '
+                    'expected %r' % (A.tolist(), a.tolist(), P.tolist(),
+                                     got.tolist(), exp.tolist()),
+                    dict(general_P=True)))
+    # determinant: products of three entries must neither overflow nor fall
+    # into the subnormal range
+    if amax == 0.0 or 1e-90 <= amax <= 1e90:
+        labels.append('det_checked')
+        F = [[Fraction(float(x)) for x in r] for r in A.tolist()]
+        terms = [F[0][0] * F[1][1] * F[2][2], 2 * F[1][2] * F[0][2] * F[0][1],
+                 -F[0][0] * F[1][2] * F[1][2], -F[1][1] * F[0][2] * F[0][2],
+                 -F[2][2] * F[0][1] * F[0][1]]
+        exact = sum(terms)
+        mag = float(sum(abs(t) for t in terms))
+        try:
+            got = float(linalg3.py_det(A))
+            if not abs(Fraction(got) - exact) <= Fraction(
+                    16 * EPS * mag + tiny):
+                fails.append(Failure(
+                    'det', 'wrong_value', 'A=%r: got %r expected %r' % (
+                        A.tolist(), got, float(exact)), {}))
+        except Exception as ex:
+            fails.append(Failure('det', 'exception', repr(ex), {}))
+    return fails
 
 
 def check(case, want_compiled=True):
@@ -830,8 +1096,10 @@ NSYS, NEIG = 13, 3
 
 def plan(ctx):
     quick = ctx['tier'] == 'quick'
-    nsys = 5000 if quick else 500000
-    neig = 3000 if quick else 300000
+    # (budgets raised with the number of families so that the older
+    # families keep their share)
+    nsys = 7000 if quick else 500000
+    neig = 3700 if quick else 300000
     # compile the probe equation once, before the shards start (they then
     # all load the cached module)
     try:
